@@ -13,6 +13,20 @@ from .common import *
 
 ERR = "ERR"
 
+_eval_exprs_shared = eval_exprs
+
+
+def eval_exprs(exprs, prelude="", **kw):
+    """common.eval_exprs, but an expression answered `hang` / `abort` (a 10 s per-request budget that a
+    heavily loaded machine can exceed) is evaluated once more alone with a generous budget before it counts"""
+    res = _eval_exprs_shared(exprs, prelude=prelude, **kw)
+    again = [i for i, r in enumerate(res) if r == "hang" or r.startswith("abort")]
+    if again:
+        r2 = _eval_exprs_shared([exprs[i] for i in again], prelude=prelude, chunk=1, per_req_timeout=120.0)
+        for i, r in zip(again, r2):
+            res[i] = r
+    return res
+
 
 def show(l):
     return ",".join(map(str, l)) if l else "-"
@@ -811,7 +825,9 @@ def regression_cases(chk):
     """the witnesses of the defects repaired by `fix:` commits, replayed on every run"""
     wit = [("sort-run-detection", "range(30).map((x:int)->{x*7%11}).sort().to_array()", dump_ints(sorted(x * 7 % 11 for x in range(30)))),
            ("format-str-zero-pad", 'is_error(format("ab", "05"))', "(bool true)"),
-           ("format-float-empty", 'format(1.5, "")', '(str "1.5")')]
+           ("format-float-empty", 'format(1.5, "")', '(str "1.5")'),
+           # 9e13c00 (agent-c01): a comparator that calls everything smaller used to index out of bounds
+           ("quickselect-inconsistent-cmp", "[3, 1, 2].median((a: int, b: int)->{-1}) > 0", "(bool true)")]
     for (k, expr, want), d in zip(wit, eval_exprs([w[1] for w in wit])):
         chk.evaluations += 1
         chk.count("regression:" + k)
